@@ -819,6 +819,51 @@ impl WorkerState for W {
                     o.hash = fnv(b"refused-then-registered");
                     o
                 }
+                Some(b"refused-then-accepted") => {
+                    // a library that is refused because of its last item, then a library that is fine: every item of
+                    // the accepted library is what it was declared as; a name the refused library declared is
+                    // either unknown or what it was declared as, never something else; nothing panics
+                    let mk = |name: &'static str, v: i32| Function::new(name, "", vec![], move || -> i32 { v }, location!()).map_err(|e| format!("{e}"));
+                    let run = || -> Result<(), String> {
+                        let mut rt = Runtime::new();
+                        let mut lib1 = Library::new();
+                        lib1.add(mk("one", 1)?.into());
+                        lib1.add(mk("uno", 11)?.into());
+                        lib1.add(Function::new("bad", "", vec!["x"], |_x: Val<Mk<44>>| -> i32 { 0 }, location!()).map_err(|e| format!("{e}"))?.into());
+                        if rt.add(lib1).is_ok() {
+                            return Err("a library with a function that mentions an unregistered type was accepted".into());
+                        }
+                        // a script right after the refused call
+                        let _ = host::compile(&rt, "fn t() -> i32 { 1 }").map_err(|e| format!("after a refused add a plain script does not compile: {e}"))?;
+                        let mut a = Module::new("a", "", location!()).map_err(|e| format!("{e}"))?;
+                        a.add(mk("f", 10)?);
+                        let mut lib2 = Library::new();
+                        lib2.add(mk("two", 2)?.into());
+                        lib2.add(a.into());
+                        lib2.add(mk("three", 3)?.into());
+                        rt.add(lib2).map_err(|e| format!("a valid library was refused after an earlier refused add: {e}"))?;
+                        for (script, want, must) in [("fn t() -> i32 { two() }", 2, true), ("fn t() -> i32 { a.f() }", 10, true), ("fn t() -> i32 { three() }", 3, true), ("fn t() -> i32 { one() }", 1, false), ("fn t() -> i32 { uno() }", 11, false)] {
+                            match host::compile(&rt, script) {
+                                Err(e) if must => return Err(format!("`{script}` does not compile although the accepted library declares the item: {e}")),
+                                Err(_) => {}
+                                Ok(mut pkg) => {
+                                    let got = pkg.get_function::<fn() -> i32>("t").map(|f| f.call()).map_err(|e| format!("{e}"))?;
+                                    if got != want {
+                                        return Err(format!("`{script}` returned {got}, the item was declared to return {want}"));
+                                    }
+                                }
+                            }
+                        }
+                        Ok(())
+                    };
+                    if let Err(e) = run() {
+                        return Outcome::fail("reached-wrong-item:after-a-refused-add", e);
+                    }
+                    let mut o = Outcome::pass();
+                    o.nontrivial = true;
+                    o.hash = fnv(b"refused-then-accepted");
+                    o
+                }
                 Some(b"use-through-alias-order") => {
                     // `use a::b; use b::f;`: whatever a use that starts with another use's alias means, it means
                     // the same in either item order, as separate items and as one item with two paths
@@ -1213,7 +1258,7 @@ impl Prop for C18P {
     }
     fn fixed_cases(&self, _tier: Tier) -> Vec<Case> {
         // the macro route cannot be generated at run time: fixed scenarios
-        vec![vec![b"#!scenario".to_vec(), b"macro-use-groups".to_vec()], vec![b"#!scenario".to_vec(), b"use-nested-path".to_vec()], vec![b"#!scenario".to_vec(), b"use-missing-item".to_vec()], vec![b"#!scenario".to_vec(), b"refused-then-registered".to_vec()], vec![b"#!scenario".to_vec(), b"use-through-alias-order".to_vec()]]
+        vec![vec![b"#!scenario".to_vec(), b"macro-use-groups".to_vec()], vec![b"#!scenario".to_vec(), b"use-nested-path".to_vec()], vec![b"#!scenario".to_vec(), b"use-missing-item".to_vec()], vec![b"#!scenario".to_vec(), b"refused-then-registered".to_vec()], vec![b"#!scenario".to_vec(), b"use-through-alias-order".to_vec()], vec![b"#!scenario".to_vec(), b"refused-then-accepted".to_vec()]]
     }
     fn worker(&self, excl: &[String]) -> Box<dyn WorkerState> {
         Box::new(W { excl: excl.to_vec() })
